@@ -158,7 +158,7 @@ def handle : List Sexp → Option Sexp
   | [.atom "expect", m, strip, .list nodes] => do
       let m ← method? m; let strip ← strip.toBool?
       let nodes ← nodes.mapM node?
-      if (if strip then nodesOkB m nodes else nodesOkM m nodes) && listOk [] nodes then
+      if (if strip then nodesOkW m nodes else nodesOkM m nodes) && listOk [] nodes then
         let evs := expectedList [] nodes
         pure (.list ((if strip then coalesceStrip m evs else coalesce evs).map evOut))
       else pure (.atom "outside")
